@@ -53,6 +53,10 @@ pub enum Net {
     V6Only,
     /// no address at all
     NoAddr,
+    /// only an IPv6 address, the IPv4-mapped form of an address in hot subnet <n> (::ffff:10.0.<n>.x)
+    V6MappedHot(u8),
+    /// only an IPv6 address with 96 leading zero bits (::1 for everybody, told apart by the port)
+    V6Loopback,
 }
 
 #[derive(Clone, Copy, Debug, PartialEq, Eq, Hash, serde::Serialize, serde::Deserialize)]
@@ -83,6 +87,12 @@ pub fn record(spec: RecSpec) -> Enr {
                     .udp6(9000 + (spec.key % 1000) as u16);
             }
             Net::NoAddr => {}
+            Net::V6MappedHot(n) => {
+                b.ip6(Ipv4Addr::new(10, 0, n, host).to_ipv6_mapped()).udp6(9000 + (spec.key % 1000) as u16);
+            }
+            Net::V6Loopback => {
+                b.ip6(Ipv6Addr::LOCALHOST).udp6(9000 + (spec.key % 1000) as u16);
+            }
         }
         let e = b.build(&k).expect("record builds");
         m.borrow_mut().insert(spec, e.clone());
